@@ -191,8 +191,9 @@ def gen_diag(rng):
                 qs[i2] += qs[j]
                 qs[j] = 0
     vecs = [_gen_vec(rng, P, qs) for _ in range(rng.choice([0, 1, 1, 2, 2, 3]))]
-    # kind: 0 contiguous model, 1 its generic decoder model, 2 its view, 3 UniformModel
-    kind = rng.choice([0, 0, 1, 2])
+    # kind: 0 contiguous model, 1 its generic decoder model, 2 its view, 3 UniformModel,
+    #       4 a reference to the contiguous model (blanket impl for &M)
+    kind = rng.choice([0, 0, 1, 2, 4, 4])
     if rng.random() < 0.2 and _valid(P, qs):
         # UniformModel over n symbols: its table is [ppb]*(n-1) + [rest]; prefer ranges that do
         # not divide 2^P (the last bin is then heavier)
